@@ -91,3 +91,49 @@ Lemma go_c04_retry0_diverges :
   exists script d, let '(_, _, res, es) := run_leaf_on 0 0 Required ONil script d None in
                    diverged es = true /\ List.length (sp_replies es) = send_cap.
 Proof. exists [ROk], RErr. vm_compute. auto. Qed.
+
+(* ---------------------------------------------------------------- scope trees (C07) at the regenerated shape *)
+From SeataV Require Import Tm.TmTreeProofs.
+
+Lemma go_c07_trace : forall cf t w v w' v' res es,
+  okw w -> run_scope go_shape cf t w v = (w', v', res, es) ->
+  project es = fst (spec_scope t (g_xid v) (w_next w)).
+Proof. intros. eapply c07_trace; eauto using go_shape_ok. Qed.
+
+Lemma go_c07_requests : forall cf t w v w' v' res es,
+  okw w -> run_scope go_shape cf t w v = (w', v', res, es) ->
+  reqs_of (project es) = reqs_of (fst (spec_scope t (g_xid v) (w_next w))).
+Proof. intros. f_equal. eapply go_c07_trace; eauto. Qed.
+
+Lemma go_c07_sees_xid : forall cf t w v w' v' res es,
+  okw w -> run_scope go_shape cf t w v = (w', v', res, es) ->
+  sees_of (project es) = sees_of (fst (spec_scope t (g_xid v) (w_next w))).
+Proof. intros. f_equal. eapply go_c07_trace; eauto. Qed.
+
+Lemma go_c07_outer_intact : forall cf t w v w' v' res es,
+  run_scope go_shape cf t w v = (w', v', res, es) ->
+  v' = v /\ forall id x ro nm, In (EAfter id x ro nm) es -> In (EEnter id x ro nm) es.
+Proof. intros. eapply c07_outer_intact; eauto using go_shape_ok. Qed.
+
+Lemma go_c07_never_ends_joined : forall cf t w v w' v' res es,
+  okw w -> g_xid v < w_next w ->
+  run_scope go_shape cf t w v = (w', v', res, es) ->
+  forall rep, ~ In (EReq (QCommit (g_xid v)) rep) es /\ ~ In (EReq (QRollback (g_xid v)) rep) es.
+Proof. intros. eapply c07_never_ends_joined; eauto using go_shape_ok. Qed.
+
+(* the code as it was before the repair (no restore): the same model refutes the property *)
+Definition unrestored_shape : code_shape :=
+  {| cs_table := cs_table go_shape; cs_default := cs_default go_shape; cs_restores := false;
+     cs_second := cs_second go_shape |}.
+Definition nested_required : scope :=
+  Scope Required 1 true [Scope Required 2 true [] ONil] ONil.
+
+Lemma go_c07_without_restore_refuted :
+  let '(_, v', _, es) := run_scope unrestored_shape {| cf_commit_retry := 2; cf_rollback_retry := 2 |}
+                                   nested_required (init_world [] ROk None) no_ctx in
+  reqs_of (project es) = [QBegin 1] /\
+  reqs_of (fst (spec_scope nested_required 0 1)) = [QBegin 1; QCommit 1] /\ v' <> no_ctx.
+Proof. vm_compute. repeat split. discriminate. Qed.
+
+Lemma okw_init : okw (init_world [] ROk None).
+Proof. constructor; cbn; congruence. Qed.
